@@ -138,6 +138,45 @@ mod libflavors {
             BlockList::burn_from(e, &spender, &from, amount);
         }
     }
+    /// the RWA flavour (`ContractType = RWA`) with every gate open: an identity verifier and a compliance
+    /// contract that accept everything, never paused, nothing frozen — it must then behave exactly like
+    /// `Base` for `transfer` / `transfer_from` / `approve` (the holder-initiated movements of C02)
+    #[contract]
+    pub struct PassIdv;
+    #[contractimpl]
+    impl PassIdv {
+        pub fn verify_identity(_e: &Env, _account: Address) {}
+    }
+    #[contract]
+    pub struct PassCompliance;
+    #[contractimpl]
+    impl PassCompliance {
+        pub fn can_transfer(_e: &Env, _from: Address, _to: Address, _amount: i128, _token: Address) -> bool {
+            true
+        }
+        pub fn can_create(_e: &Env, _to: Address, _amount: i128, _token: Address) -> bool {
+            true
+        }
+        pub fn transferred(_e: &Env, _from: Address, _to: Address, _amount: i128, _token: Address) {}
+        pub fn created(_e: &Env, _to: Address, _amount: i128, _token: Address) {}
+        pub fn destroyed(_e: &Env, _from: Address, _amount: i128, _token: Address) {}
+    }
+    #[contract]
+    pub struct RwaLib;
+    #[contractimpl]
+    impl RwaLib {
+        pub fn __constructor(e: &Env, idv: Address, compliance: Address) {
+            stellar_tokens::rwa::RWA::set_identity_verifier(e, &idv);
+            stellar_tokens::rwa::RWA::set_compliance(e, &compliance);
+        }
+        pub fn mint(e: &Env, to: Address, amount: i128) {
+            Base::mint(e, &to, amount);
+        }
+    }
+    #[contractimpl(contracttrait)]
+    impl FungibleToken for RwaLib {
+        type ContractType = stellar_tokens::rwa::RWA;
+    }
     #[allow(dead_code)]
     fn _unused(_: MuxedAddress, _: SString) {}
 }
@@ -166,6 +205,7 @@ enum Flavor {
     VotesLib,
     AllowLib,
     BlockLib,
+    RwaLib,
 }
 
 struct Sim {
@@ -225,6 +265,11 @@ impl Sim {
             Flavor::VotesLib => e.register(libflavors::VotesLib, ()),
             Flavor::AllowLib => e.register(libflavors::AllowLib, ()),
             Flavor::BlockLib => e.register(libflavors::BlockLib, ()),
+            Flavor::RwaLib => {
+                let idv = e.register(libflavors::PassIdv, ());
+                let comp = e.register(libflavors::PassCompliance, ());
+                e.register(libflavors::RwaLib, (idv, comp))
+            }
         };
         assert_eq!(u.push(tok.clone()), SELF);
         assert_eq!(u.push(other), OTHER);
@@ -258,7 +303,7 @@ impl Sim {
             Flavor::Base | Flavor::Pausable | Flavor::VotesLib | Flavor::AllowLib | Flavor::BlockLib => true,
             Flavor::AllowList => kind != "mint",
             Flavor::BlockList => !matches!(kind, "mint" | "burn" | "burn_from"),
-            Flavor::Votes | Flavor::Capped => !matches!(kind, "burn" | "burn_from"),
+            Flavor::Votes | Flavor::Capped | Flavor::RwaLib => !matches!(kind, "burn" | "burn_from"),
         }
     }
     /// getters; a getter that traps is shown as `?` (the monitor then flags the observation)
@@ -482,24 +527,29 @@ fn gen_auth(rng: &mut Rng, kind: &str, a: &[usize], auth_focus: bool, mint_auth:
 /// every entry point of the LIBRARY flavour types, including the burns the examples do not expose:
 /// allowance-based burns need a live, sufficient allowance and spend exactly the amount
 fn scenario_lib_flavors(t: &mut Trace) {
-    for flavor in [Flavor::VotesLib, Flavor::AllowLib, Flavor::BlockLib] {
+    for flavor in [Flavor::VotesLib, Flavor::AllowLib, Flavor::BlockLib, Flavor::RwaLib] {
         seq(t, &format!("directed library flavour min_temp=1 start=100 flavor={:?}", flavor));
         let mut s = Sim::new_flavor(t, flavor, 1, 100, 0);
         s.exec(t, "mint", &[0], 1000, 0, &[]);
         s.exec(t, "transfer", &[0, 1], 250, 0, &[0]);
-        s.exec(t, "burn_from", &[2, 0], 10, 0, &[2]);          // no allowance at all
+        if s.supports("burn") { s.exec(t, "burn_from", &[2, 0], 10, 0, &[2]); }          // no allowance at all
         s.exec(t, "approve", &[0, 2], 400, 150, &[0]);
         s.exec(t, "transfer_from", &[2, 0, 3], 100, 0, &[2]);
-        s.exec(t, "burn_from", &[2, 0], 120, 0, &[2]);
-        s.exec(t, "burn_from", &[2, 0], 120, 0, &[0]);         // the owner signs, not the spender
-        s.exec(t, "burn_from", &[2, 0], 181, 0, &[2]);         // one more than the allowance left
-        s.exec(t, "burn_from", &[2, 0], 180, 0, &[2]);
-        s.exec(t, "burn_from", &[2, 0], 1, 0, &[2]);           // allowance used up
-        s.exec(t, "burn", &[1], 50, 0, &[1]);
-        s.exec(t, "burn", &[1], 50, 0, &[0]);
+        // a live allowance of spender 2 does not help anybody else: a third party, the owner or nobody signing
+        s.exec(t, "transfer_from", &[2, 0, 3], 10, 0, &[4]);
+        s.exec(t, "transfer_from", &[2, 0, 4], 10, 0, &[4]);
+        s.exec(t, "transfer_from", &[2, 0, 3], 10, 0, &[0]);
+        s.exec(t, "transfer_from", &[2, 0, 3], 10, 0, &[]);
+        if s.supports("burn") { s.exec(t, "burn_from", &[2, 0], 120, 0, &[2]); }
+        if s.supports("burn") { s.exec(t, "burn_from", &[2, 0], 120, 0, &[0]); }         // the owner signs, not the spender
+        if s.supports("burn") { s.exec(t, "burn_from", &[2, 0], 181, 0, &[2]); }         // one more than the allowance left
+        if s.supports("burn") { s.exec(t, "burn_from", &[2, 0], 180, 0, &[2]); }
+        if s.supports("burn") { s.exec(t, "burn_from", &[2, 0], 1, 0, &[2]); }           // allowance used up
+        if s.supports("burn") { s.exec(t, "burn", &[1], 50, 0, &[1]); }
+        if s.supports("burn") { s.exec(t, "burn", &[1], 50, 0, &[0]); }
         s.exec(t, "approve", &[1, 3], 30, 110, &[1]);
         s.advance(t, 11);
-        s.exec(t, "burn_from", &[3, 1], 30, 0, &[3]);          // expired
+        if s.supports("burn") { s.exec(t, "burn_from", &[3, 1], 30, 0, &[3]); }          // expired
         s.exec(t, "transfer_from", &[3, 1, 0], 1, 0, &[3]);
     }
 }
@@ -810,7 +860,7 @@ fn main() {
         // tree with the tree's macros) with its gates open: it must obey C02 exactly like Base
         let flavor = if k % 3 == 2 {
             *rng.pick(&[Flavor::AllowList, Flavor::BlockList, Flavor::Pausable, Flavor::Votes, Flavor::Capped,
-                        Flavor::VotesLib, Flavor::AllowLib, Flavor::BlockLib])
+                        Flavor::VotesLib, Flavor::AllowLib, Flavor::BlockLib, Flavor::RwaLib])
         } else {
             Flavor::Base
         };
